@@ -130,6 +130,39 @@ def main(args):
                 recs.append(x[1])
                 real[x[1]["id"]] = {"draft": x[1]["d"], "schema": x[2], "instance": x[3], "observed_errors": x[4]}
                 ck.count((x[1]["d"], repr(x[2]), repr(x[3])), bool(x[4]))
+    # reference-bearing scenarios (store documents, nested ids, a cross-document reference under not/disallow before a
+    # local one): the union law must hold there too -- whole schema and every restriction run with the same store
+    import copy
+    from harness import scen, regex
+    from harness.encode import enc, enc_str
+    js = __import__("jsonschema")
+    rid = 10 ** 7
+    for d in DRAFTS:
+        cls = _cls()[d]
+        for sc in scen.scenarios(d):
+            if sc["remote"] or sc["name"] in ("dangling", "recursive"):
+                continue
+            base = sc["schema"].get("id" if d <= 4 else "$id", "")
+
+            def resolver_for(schema, sc=sc, cls=cls):
+                # the referring document is always the WHOLE schema: a restriction {keyword + consulted siblings} must
+                # still find the definitions its references point to
+                return js.RefResolver.from_schema(copy.deepcopy(sc["schema"]), id_of=cls.ID_OF, store=copy.deepcopy(sc["store"]))
+            for I in sc["instances"]:
+                rid += 1
+                try:
+                    rec, plain = errrec.make_record(rid, d, cls, copy.deepcopy(sc["schema"]), copy.deepcopy(I), base=base,
+                                                    with_restr=True, resolver_for=resolver_for)
+                except Exception as e:  # noqa
+                    ck.violation("raises_on_reference_scenario", {"draft": d, "scenario": sc["name"], "instance": I,
+                                                                  "exception": "%s: %s" % (type(e).__name__, str(e)[:100])})
+                    continue
+                rec["more"] = [{"u": enc_str(u), "doc": enc(doc)} for u, doc in sc["store"].items()]
+                rec["pats"] = regex.pats_table([sc["schema"]] + list(sc["store"].values()))
+                recs.append(rec)
+                real[rid] = {"draft": d, "scenario": sc["name"], "schema": sc["schema"], "store": sc["store"], "instance": I,
+                             "observed_errors": plain}
+                ck.count((d, sc["name"], repr(I)), bool(plain))
     wd = tlc.workdir("c05lib2")
     lib = calibrate.write_lib(wd + "/lib.json")
     bad, states = tlc.validate_trace("trace/Trace_Errors.tla", recs, "c05", shards=16, env={"LIB_FILE": lib})
